@@ -45,6 +45,11 @@ def conc(x, lo, hi):
 
 
 def build(returns_op, annotated, resp, meta):
+    # a file of an ENCLOSING package that declares messages with the same short names: relative operation_info names
+    # are resolved in the method's own package, not in an outer one
+    outer = gen.FileBuilder("google/example/common.proto", "google.example")
+    outer.message("Book", [("outer", "string")])
+    outer.message("IndexReport", [("outer", "string")])
     idx = gen.FileBuilder("google/example/lr/v1/index.proto", PKG)
     idx.message("IndexReport", [("pages", "int32")])
     idx.message("IndexMetadata", [("progress", "int32")])
@@ -55,7 +60,7 @@ def build(returns_op, annotated, resp, meta):
     s = fb.service("Library")
     out = "google.longrunning.Operation" if returns_op else "Book"
     fb.method(s, "Do", "Req", out, lro=(TYPES[resp], TYPES[meta]) if annotated else None)
-    return api_mod.API.build(gen.dep_files() + [idx.f, fb.f], package=PKG, opts=_OPTS)
+    return api_mod.API.build(gen.dep_files() + [outer.f, idx.f, fb.f], package=PKG, opts=_OPTS)
 
 
 def generation(returns_op: bool, annotated: bool, resp: int, meta: int) -> bool:
